@@ -955,6 +955,13 @@ func (c *fctx) binary(at ast.Node, X ast.Expr, op token.Token, Y ast.Expr, opT t
 				return "(!(" + an + " " + c.expr(X) + "))"
 			}
 		}
+		if c.isNil(Y) {
+			if _, isSlice := c.typeOf(X).Underlying().(*types.Slice); isSlice {
+				// said in the doc comment of the definition: a theorem that rests on this test needs the values that reach it
+				// to be nil exactly when they are empty (or never empty), as an explicit hypothesis
+				c.sites = append(c.sites, fmt.Sprintf("nil test of a slice (line %d): %s — a nil slice and an empty one are the same value in the translation", c.t.pr.line(at.Pos()), c.t.pr.text(c.fi.Pkg, X)))
+			}
+		}
 		switch {
 		case c.isNil(Y):
 			return "(" + c.expr(X) + " " + o + " " + c.exprAs(Y, c.typeOf(X)) + ")"
